@@ -59,7 +59,16 @@ mod kani_c17 {
             _ => ReplyOn::Always,
         };
         let gas: Option<u64> = if kani::any() { Some(kani::any()) } else { None };
-        let sm = SubMsg::<Empty> { id, payload: Binary::default(), msg: pick(sel), gas_limit: gas, reply_on: reply_on.clone() };
+        // a payload of 0..=2 arbitrary bytes (seed C20h: the payload must survive the lifting for every mode)
+        let (p0, p1): (u8, u8) = (kani::any(), kani::any());
+        let plen: u8 = kani::any();
+        kani::assume(plen <= 2);
+        let payload = match plen {
+            0 => Binary::default(),
+            1 => Binary::from(vec![p0]),
+            _ => Binary::from(vec![p0, p1]),
+        };
+        let sm = SubMsg::<Empty> { id, payload, msg: pick(sel), gas_limit: gas, reply_on: reply_on.clone() };
         kani::cover!(sel == 5, "gov variant reached");
         kani::cover!(sel == 6, "stargate variant reached");
         kani::cover!(sel == 7, "any variant reached");
@@ -67,6 +76,11 @@ mod kani_c17 {
         assert!(lifted.id == id);
         assert!(lifted.gas_limit == gas);
         assert!(lifted.reply_on == reply_on);
+        {
+            let got = lifted.payload.as_slice();
+            let ok = got.len() == plen as usize && (plen < 1 || got[0] == p0) && (plen < 2 || got[1] == p1);
+            assert!(ok, "the payload is carried over unchanged");
+        }
         assert!(kind(&lifted.msg) == sel, "the lifted message is the same variant");
         core::mem::forget(lifted);
     }
